@@ -64,17 +64,21 @@ def _diff(a, b):
     ra, rb = fa[1].split(","), fb[1].split(",")
     if len(ra) != len(rb):
         return "shape"
+    # ALL differing components, not the first one: a listed finding on one flag (SUBS sets C to the borrow) must not hide a
+    # second defect on the same instruction (seeded C03-m2: V wrong when the subtrahend is INT_MIN)
+    names = []
     for x, y in zip(ra, rb):
         if x != y:
             n = x.split("=")[0]
             if re.fullmatch(r"x\d+", n):
-                return "xreg"
-            if re.fullmatch(r"v\d+", n):
-                return "vreg"
-            return n
+                n = "xreg"
+            elif re.fullmatch(r"v\d+", n):
+                n = "vreg"
+            if n not in names:
+                names.append(n)
     if fa[2] != fb[2]:
-        return "mem"
-    return None
+        names.append("mem")
+    return "+".join(names) if names else None
 
 
 def _mnemonic_class(cls):
